@@ -10,6 +10,7 @@ package main
 
 import (
 	"bufio"
+	"crypto/sha512"
 	"fmt"
 	"path"
 	"strings"
@@ -797,8 +798,69 @@ func c10DebControl(r *rt.Run) {
 	r.Probe("control-file-of-a-deb")
 }
 
+// c10UserIndex is a caller's own stanza type: the raw paragraph, one field of its
+// own, and control.BestChecksums embedded anonymously (the way that helper is
+// meant to be used).
+type c10UserIndex struct {
+	control.Paragraph
+	Package string
+	control.BestChecksums
+}
+
+// c10Embedded decodes Sources-like stanzas into the caller's own type and asks
+// the best-checksum selector.
+func c10Embedded(r *rt.Run) {
+	t := r.T
+	n := 1 + t.Draw(3, "c10.emb.n")
+	var sb strings.Builder
+	var models [][]mFile
+	for i := 0; i < n; i++ {
+		files := genFiles(t, fmt.Sprintf("pkg%d_1.0", i), "c10.emb.files", 1)
+		models = append(models, files)
+		w := &docWriter{}
+		w.f("Package", fmt.Sprintf("pkg%d", i))
+		has512 := t.Bool(1, 2, "c10.emb.512")
+		w.files("Checksums-Sha256", files, mFile.sha256, false)
+		if has512 {
+			w.files("Checksums-Sha512", files, func(f mFile) string { return fmt.Sprintf("%x", sha512.Sum512(f.Content)) }, false)
+		}
+		sb.WriteString(w.String())
+		sb.WriteString("\n")
+	}
+	doc := sb.String()
+	var got []c10UserIndex
+	var err error
+	task := r.Solo("parser", func() { err = control.Unmarshal(&got, simio.NewReader(r, "index", []byte(doc))) })
+	if taskTrouble(r, "C10", "user-type/embedded-BestChecksums", task) {
+		return
+	}
+	r.Probe("user-type-embedding-BestChecksums")
+	if err != nil || len(got) != n {
+		r.Violate("C10/parse-error", "user-type/embedded-BestChecksums", "err=%v stanzas=%d want %d\ndocument:\n%s", err, len(got), n, clip(doc, 500))
+		return
+	}
+	for i, g := range got {
+		best := g.Checksums()
+		if len(best) != len(models[i]) {
+			r.Violate("C10/field-mismatch", "user-type/embedded-BestChecksums/Checksums()", "stanza %d: Checksums() has %d entries, the stanza lists %d files (ChecksumsSha256=%d ChecksumsSha512=%d)", i, len(best), len(models[i]), len(g.ChecksumsSha256), len(g.ChecksumsSha512))
+			return
+		}
+		for j, f := range models[i] {
+			if best[j].Filename != f.Name || best[j].Size != int64(f.Size) {
+				r.Violate("C10/field-mismatch", "user-type/embedded-BestChecksums/Checksums()", "stanza %d entry %d: got {%s %d}, want {%s %d}", i, j, best[j].Filename, best[j].Size, f.Name, f.Size)
+				return
+			}
+		}
+	}
+}
+
 func runC10(r *rt.Run, tier string) {
 	t := r.T
+	if t.Bool(1, 16, "c10.part-embedded") {
+		r.Stats["part.user-type-embedding-BestChecksums"]++
+		c10Embedded(r)
+		return
+	}
 	if t.Bool(1, 10, "c10.part-debcontrol") {
 		r.Stats["kind.deb-control"]++
 		c10DebControl(r)
@@ -858,5 +920,5 @@ func init() {
 		},
 		Assumptions: []string{"the .deb control file kind of this property is exercised by C14's check", "two-part architecture names are compared on OS and CPU only"},
 	})
-	propProbes["C10"] = []string{"index-with-hundreds-of-stanzas", "control-file-of-a-deb", "GetDSC", "same-kind-decoded-by-concurrent-callers-first-thing-in-the-run", "relative-names-after-a-change-of-directory", "clearsigned-document", "several-document-kinds-in-one-run", "line-longer-than-4096-bytes", "caller-bufio-smaller-than-4096", "via-file-entry-point"}
+	propProbes["C10"] = []string{"user-type-embedding-BestChecksums", "index-with-hundreds-of-stanzas", "control-file-of-a-deb", "GetDSC", "same-kind-decoded-by-concurrent-callers-first-thing-in-the-run", "relative-names-after-a-change-of-directory", "clearsigned-document", "several-document-kinds-in-one-run", "line-longer-than-4096-bytes", "caller-bufio-smaller-than-4096", "via-file-entry-point"}
 }
